@@ -39,6 +39,20 @@ def cumWidth (en : Enabled) (w : Widths) (T : Tracer) : Rat :=
 def agreeUpTo (T : Tracer) (en en' : Enabled) (w w' : Widths) : Prop :=
   ∀ S : Tracer, S.rank ≤ T.rank → en.get S = en'.get S ∧ w.get S = w'.get S
 
+/-- the enable flags agree on every tracer up to and including `T` -/
+def flagsAgree (T : Tracer) (en en' : Enabled) : Prop :=
+  ∀ S : Tracer, S.rank ≤ T.rank → en.get S = en'.get S
+
+/-- `q` is the particle row `p` except, possibly, for the widths of tracers after `T` -/
+def partAgree (T : Tracer) (p q : Part) : Prop :=
+  q.hid = p.hid ∧ q.hmass = p.hmass ∧ q.ppos = p.ppos ∧ q.pvel = p.pvel ∧ q.hvel = p.hvel ∧ q.r = p.r ∧
+    q.invn = p.invn ∧ q.kc = p.kc ∧ q.wL = p.wL ∧
+    (1 ≤ T.rank → q.wE0 = p.wE0 ∧ q.wE1 = p.wE1 ∧ q.wE2 = p.wE2) ∧ (2 ≤ T.rank → q.wQ = p.wQ)
+
+/-- two central codes are indistinguishable for the conformity switch of tracers up to `T` -/
+def confRel (T : Tracer) (k k' : Int) : Prop :=
+  1 ≤ T.rank → ((k = 1 ↔ k' = 1) ∧ (k = 2 ↔ k' = 2))
+
 theorem Tracer.code_injective {T₁ T₂ : Tracer} (h : T₁.code = T₂.code) : T₁ = T₂ := by
   cases T₁ <;> cases T₂ <;> simp [Tracer.code] at h ⊢
 
@@ -164,22 +178,171 @@ theorem wrap_range {x L : Rat} (hlo : -(3 * L / 2) ≤ x) (hhi : x < 3 * L / 2) 
 
 /-! ### `keep_cent[pinds]` -/
 
+theorem gatherKeep_cons (keep : List Nat) (i : Int) (is : List Int) :
+    gatherKeep keep (i :: is) =
+      (match gatherOne keep i with
+       | .error e => .error e
+       | .ok v => match gatherKeep keep is with
+                  | .error e => .error e
+                  | .ok vs => .ok (v :: vs)) := by
+  unfold gatherKeep
+  rw [List.mapM_cons]
+  simp only [bind, Except.bind, pure, Except.pure]
+  cases gatherOne keep i with
+  | error e => rfl
+  | ok v =>
+    simp only
+    cases List.mapM (gatherOne keep) is <;> rfl
+
 theorem gatherKeep_length {keep : List Nat} {pinds : List Int} {kcs : List Int}
     (h : gatherKeep keep pinds = .ok kcs) : kcs.length = pinds.length := by
-  unfold gatherKeep at h
   induction pinds generalizing kcs with
-  | nil => simp [List.mapM_nil, pure, Except.pure] at h; subst h; rfl
+  | nil =>
+    simp [gatherKeep, List.mapM_nil, pure, Except.pure] at h
+    subst h; rfl
   | cons i is ih =>
-    rw [List.mapM_cons] at h
-    simp only [bind, Except.bind] at h
-    split at h
-    · cases h
-    · rename_i v hv
-      split at h
-      · cases h
-      · rename_i vs hvs
-        simp only [pure, Except.pure, Except.ok.injEq] at h
+    rw [gatherKeep_cons] at h
+    cases h1 : gatherOne keep i with
+    | error e => simp [h1] at h
+    | ok v =>
+      cases h2 : gatherKeep keep is with
+      | error e => simp [h1, h2] at h
+      | ok vs =>
+        simp only [h1, h2, Except.ok.injEq] at h
         subst h
-        simp [ih hvs]
+        simp [ih h2]
+
+/-- gathering from two keep arrays computed row by row from the same table, whose entries are related by
+`P` row by row, succeeds on the same index lists and yields `P`-related results -/
+theorem gatherOne_map_rel {α} (xs : List α) (a b : α → Nat) (P : Int → Int → Prop)
+    (hP : ∀ x ∈ xs, P (a x) (b x)) (i : Int) (v : Int) (h : gatherOne (xs.map a) i = .ok v) :
+    ∃ v', gatherOne (xs.map b) i = .ok v' ∧ P v v' := by
+  unfold gatherOne at h ⊢
+  simp only [List.length_map] at h ⊢
+  cases hk : pyIndex xs.length i with
+  | none => simp [hk] at h
+  | some k =>
+    simp only [hk, List.getElem?_map] at h ⊢
+    cases hx : xs[k]? with
+    | none => simp [hx] at h
+    | some x =>
+      simp only [hx, Option.map_some, Except.ok.injEq] at h ⊢
+      subst h
+      exact ⟨_, rfl, hP x (List.mem_of_getElem? hx)⟩
+
+theorem gatherKeep_map_rel {α} (xs : List α) (a b : α → Nat) (P : Int → Int → Prop)
+    (hP : ∀ x ∈ xs, P (a x) (b x)) (pinds : List Int) (kcs : List Int)
+    (h : gatherKeep (xs.map a) pinds = .ok kcs) :
+    ∃ kcs', gatherKeep (xs.map b) pinds = .ok kcs' ∧ List.Forall₂ P kcs kcs' := by
+  induction pinds generalizing kcs with
+  | nil =>
+    simp [gatherKeep, List.mapM_nil, pure, Except.pure] at h
+    subst h
+    exact ⟨[], by simp [gatherKeep, List.mapM_nil, pure, Except.pure], List.Forall₂.nil⟩
+  | cons i is ih =>
+    rw [gatherKeep_cons] at h
+    cases h1 : gatherOne (xs.map a) i with
+    | error e => simp [h1] at h
+    | ok v =>
+      cases h2 : gatherKeep (xs.map a) is with
+      | error e => simp [h1, h2] at h
+      | ok vs =>
+        simp only [h1, h2, Except.ok.injEq] at h
+        subst h
+        obtain ⟨v', hv', hp⟩ := gatherOne_map_rel xs a b P hP i v h1
+        obtain ⟨vs', hvs', hps⟩ := ih vs h2
+        refine ⟨v' :: vs', ?_, List.Forall₂.cons hp hps⟩
+        rw [gatherKeep_cons, hv', hvs']
+
+/-! ### satellites of two related runs -/
+
+/-- if the rows of two satellite passes are pairwise related so that selection as `T` agrees and the
+galaxies built agree, the `T`-satellites are the same list -/
+theorem genSats_gals_congr (cfg cfg' : Cfg) (aS : Tri Rat) (T : Tracer)
+    (pks pks' : List (Part × Int))
+    (h : List.Forall₂ (fun pk pk' =>
+      (keepCode cfg.en (satWidths pk.1 pk.2) pk.1.r = T.code ↔
+        keepCode cfg'.en (satWidths pk'.1 pk'.2) pk'.1.r = T.code) ∧
+      mkSat cfg (aS.get T) pk.1 = mkSat cfg' (aS.get T) pk'.1) pks pks') :
+    (genSats cfg aS pks).gals T = (genSats cfg' aS pks').gals T := by
+  rw [genSats_gals, genSats_gals]
+  induction h with
+  | nil => rfl
+  | @cons pk pk' l l' hd _ ih =>
+    obtain ⟨hsel, hmk⟩ := hd
+    simp only [List.filter_cons]
+    by_cases hk : keepCode cfg.en (satWidths pk.1 pk.2) pk.1.r = T.code
+    · have hk' := hsel.1 hk
+      simp only [hk, hk', decide_true, if_true, List.map_cons, hmk, ih]
+    · have hk' : ¬ keepCode cfg'.en (satWidths pk'.1 pk'.2) pk'.1.r = T.code := fun h' => hk (hsel.2 h')
+      simp only [hk, hk', decide_false, Bool.false_eq_true, if_false, ih]
+
+theorem forall₂_zip_map {α β γ} (R : α × β → γ × β → Prop) (u : α → γ) (Q : β → β → Prop)
+    (xs : List α) (ks ks' : List β) (hlen : ks.length = xs.length)
+    (hk : List.Forall₂ Q ks ks')
+    (hR : ∀ x ∈ xs, ∀ k k', Q k k' → R (x, k) (u x, k')) :
+    List.Forall₂ R (xs.zip ks) ((xs.map u).zip ks') := by
+  induction xs generalizing ks ks' with
+  | nil => simp
+  | cons x xs ih =>
+    cases hk with
+    | nil => simp at hlen
+    | cons hq hrest =>
+      simp only [List.zip_cons_cons, List.map_cons]
+      refine List.Forall₂.cons (hR x (List.mem_cons_self) _ _ hq) ?_
+      apply ih
+      · simpa using hlen
+      · exact hrest
+      · intro y hy; exact hR y (List.mem_cons_of_mem _ hy)
+
+theorem satWidths_agree {T : Tracer} {en en' : Enabled} {p q : Part} {k k' : Int}
+    (hen : flagsAgree T en en') (hpq : partAgree T p q) (hk : confRel T k k') :
+    agreeUpTo T en en' (satWidths p k) (satWidths q k') := by
+  obtain ⟨_, _, _, _, _, _, _, _, hL, hE, hQ⟩ := hpq
+  intro S hS
+  refine ⟨hen S hS, ?_⟩
+  cases S
+  · simp [satWidths, Tri.get, hL]
+  · have h1 : 1 ≤ T.rank := hS
+    obtain ⟨e0, e1, e2⟩ := hE h1
+    obtain ⟨k1, k2⟩ := hk h1
+    simp only [satWidths, Tri.get, e0, e1, e2]
+    by_cases a : k = 1
+    · have a' := k1.1 a; simp [a, a']
+    · have a' : ¬ k' = 1 := fun h => a (k1.2 h)
+      by_cases b : k = 2
+      · have b' := k2.1 b; simp [b, b']
+      · have b' : ¬ k' = 2 := fun h => b (k2.2 h)
+        simp [a, a', b, b']
+  · have h2 : 2 ≤ T.rank := hS
+    simp [satWidths, Tri.get, hQ h2]
+
+theorem mkSat_agree {T : Tracer} (cfg : Cfg) (en' : Enabled) (a : Rat) {p q : Part} (hpq : partAgree T p q) :
+    mkSat cfg a p = mkSat { cfg with en := en' } a q := by
+  obtain ⟨h1, h2, h3, h4, h5, _, h7, _⟩ := hpq
+  simp only [mkSat, h1, h2, h3, h4, h5, h7]
+  rfl
+
+theorem agreeUpTo_mono {T S : Tracer} {en en' : Enabled} {w w' : Widths} (hS : S.rank ≤ T.rank)
+    (h : agreeUpTo T en en' w w') : agreeUpTo S en en' w w' :=
+  fun U hU => h U (Nat.le_trans hU hS)
+
+/-- filters with a weaker predicate keep more, in the same order -/
+theorem filter_sublist_filter_of_imp {α} (l : List α) (p q : α → Bool) (h : ∀ x ∈ l, p x = true → q x = true) :
+    (l.filter p).Sublist (l.filter q) := by
+  induction l with
+  | nil => simp
+  | cons x xs ih =>
+    have ih' := ih (fun y hy => h y (List.mem_cons_of_mem _ hy))
+    simp only [List.filter_cons]
+    by_cases hp : p x = true
+    · have hq := h x (List.mem_cons_self) hp
+      simp only [hp, hq, if_true]
+      exact List.Sublist.cons_cons _ ih'
+    · by_cases hq : q x = true
+      · simp only [hp, hq, if_true]
+        exact List.Sublist.cons _ ih'
+      · simp only [hp, hq]
+        exact ih'
 
 end AbacusVerif.Hod
